@@ -22,7 +22,7 @@ class C06(Check):
     def cfg(self, tier):
         weights = dict(tree.DEFAULT_CFG["weights"])
         weights.update({"create_uid": 8, "copy": 8, "remove": 4, "values": 0, "flag": 0, "metadata": 0, "file": 0,
-                        "rename": 1, "move": 2, "pg_add": 3, "reopen": 3})
+                        "rename": 1, "move": 2, "pg_add": 3, "reopen": 3, "type_clash": 2})
         # constructive prefix: an object with two property groups, copied into the second workspace; there the first
         # group of the copy is deleted and the object copied again (one group identifier free, the other in use)
         two_pgs = [{"op": "object", "cls": "Points", "parent": 0, "name": "p", "geom": {"n": 3, "g": [1, 2, 3, 4]}, "deferred": False},
